@@ -41,6 +41,8 @@ def run(chk: Check):
     traces += D.engine_traces(["iwls"], c1, D.SCHEDULES[2], chains=1, seed=chk.seed + 13, late=True)
     # epochs sampled in several chunks; a random walk on a parameter with bounded support (NaN ratios -> acceptance 0)
     traces += D.engine_traces(["rw", "rw_support"], c1, D.SCHEDULES[3], chains=2, seed=chk.seed + 8)
+    # NUTS on a funnel: adaptation epochs with divergent transitions whose reported acceptance probability is not 0
+    traces += D.engine_traces(["nuts_funnel"], (0.8, 0.05, 0.75, 10, 1.0), [(1, 60), (4, 4)], chains=4, seed=chk.seed + 14)
     if not chk.quick:
         traces += D.engine_traces(["rw", "mh_on", "mh_off"], c2, D.SCHEDULES[1], chains=3, seed=chk.seed + 2)
         traces += D.engine_traces(["iwls", "mh_on"], c1, D.SCHEDULES[0], chains=2, seed=chk.seed + 3)
